@@ -38,6 +38,7 @@ type orderGen struct {
 	vars     map[string][]string // type string -> variable names in scope (body level)
 	counter  int
 	noStr    int // >0: inside a string template hole: no string literals
+	anyHint  *Type // dynamic type AnyStruct values should mostly have (cast targets)
 	maxDepth int
 }
 
@@ -63,6 +64,11 @@ func (g *orderGen) feat(f string) { g.info.Features[f] = true }
 func (g *orderGen) leaf(t *Type) Expr {
 	g.nextK++
 	g.info.Leaves++
+	name := g.leafHelper(t)
+	return Call{Fn: name, Args: []Arg{{E: IntLit{T: "Int", V: big.NewInt(g.nextK)}}, {E: g.value(t)}}}
+}
+
+func (g *orderGen) leafHelper(t *Type) string {
 	name := "t_" + t.Mangle()
 	if !g.helpers[name] {
 		g.helpers[name] = true
@@ -73,7 +79,7 @@ func (g *orderGen) leaf(t *Type) Expr {
 			Body:   []Stmt{Log{E: V("k")}, Return{E: V("v")}},
 		})
 	}
-	return Call{Fn: name, Args: []Arg{{E: IntLit{T: "Int", V: big.NewInt(g.nextK)}}, {E: g.value(t)}}}
+	return name
 }
 
 func (g *orderGen) pickVar(t *Type) (Expr, bool) {
@@ -108,7 +114,10 @@ func (g *orderGen) value(t *Type) Expr {
 		}
 		return g.value(t.Elem)
 	case KArr:
-		n := g.draw(5, "alen")
+		n := 1 + g.draw(4, "alen")
+		if g.draw(8, "empty") == 0 {
+			n = 0
+		}
 		a := ArrLit{T: t}
 		for i := 0; i < n; i++ {
 			a.Elems = append(a.Elems, g.value(t.Elem))
@@ -131,6 +140,9 @@ func (g *orderGen) value(t *Type) Expr {
 		names := g.vars[tAInt.String()]
 		return RefOf{X: V(names[g.draw(len(names), "refarr")]), T: tRMA}
 	case KAny:
+		if h := g.anyHint; h != nil && g.draw(4, "any-hit") != 0 {
+			return g.value(h)
+		}
 		n := 5
 		if g.noStr > 0 {
 			n = 4
@@ -176,7 +188,7 @@ func (g *orderGen) expr(t *Type, d int) Expr {
 			return Force{X: g.expr(tOInt, d)}
 		case 5:
 			g.feat("index-array")
-			return Index{X: g.expr(tAInt, d), I: g.expr(Int, d)}
+			return Index{X: g.expr(tAInt, d), I: g.index(d)}
 		case 6:
 			g.feat("member")
 			if g.draw(2, "via-ref") == 0 {
@@ -198,13 +210,13 @@ func (g *orderGen) expr(t *Type, d int) Expr {
 			return Invoke{X: g.expr(recv, d), Name: "m", Args: []Arg{{E: g.expr(Int, d)}, {Label: "b", E: g.expr(Int, d)}}}
 		case 11:
 			g.feat("force-cast")
-			return Cast{Op: "as!", X: g.expr(Any, d), T: Int}
+			return Cast{Op: "as!", X: g.anyExpr(d, Int), T: Int}
 		case 12:
 			g.feat("unary-minus")
 			return Unary{Op: "-", X: g.expr(Int, d)}
 		default:
 			g.feat("index-array-via-ref")
-			return Index{X: g.expr(tRMA, d), I: g.expr(Int, d)}
+			return Index{X: g.expr(tRMA, d), I: g.index(d)}
 		}
 	case "Int8":
 		switch g.draw(4, "int8-form") {
@@ -247,7 +259,7 @@ func (g *orderGen) expr(t *Type, d int) Expr {
 			return Invoke{X: g.expr(tS, d), Name: "p", Args: []Arg{{E: g.expr(Bool, d)}}}
 		case 8:
 			g.feat("force-cast")
-			return Cast{Op: "as!", X: g.expr(Any, d), T: Bool}
+			return Cast{Op: "as!", X: g.anyExpr(d, Bool), T: Bool}
 		default:
 			g.feat("optional-equals")
 			op := []string{"==", "!="}[g.draw(2, "eq")]
@@ -278,7 +290,7 @@ func (g *orderGen) expr(t *Type, d int) Expr {
 		switch g.draw(9, "oint-form") {
 		case 0:
 			g.feat("index-dict")
-			return Index{X: g.expr(tDII, d), I: g.expr(Int, d)}
+			return Index{X: g.expr(tDII, d), I: g.index(d)}
 		case 1, 2:
 			g.feat("optional-chaining-member")
 			return Member{X: g.expr(tOS, d), Name: "f", Opt: true}
@@ -293,7 +305,13 @@ func (g *orderGen) expr(t *Type, d int) Expr {
 			return Cond{C: g.expr(Bool, d), A: g.expr(tOInt, d), B: g.expr(tOInt, d)}
 		case 7:
 			g.feat("nil-coalescing-optional")
-			return Binary{Op: "??", L: g.expr(tOInt, d), R: g.expr(tOInt, d)}
+			// the checker infers the right operand with expected type Int first;
+			// a static cast keeps compound right operands at Int?
+			l, r := g.expr(tOInt, d), g.expr(tOInt, d)
+			if _, isCall := r.(Call); !isCall {
+				r = Cast{Op: "as", X: r, T: tOInt}
+			}
+			return Binary{Op: "??", L: l, R: r}
 		default:
 			g.feat("method-call")
 			return Invoke{X: g.expr(tS, d), Name: "oi", Args: []Arg{{E: g.expr(Int, d)}}}
@@ -314,7 +332,7 @@ func (g *orderGen) expr(t *Type, d int) Expr {
 			return Binary{Op: "??", L: g.expr(tOS, d), R: g.expr(tS, d)}
 		default:
 			g.feat("force-cast")
-			return Cast{Op: "as!", X: g.expr(Any, d), T: tS}
+			return Cast{Op: "as!", X: g.anyExpr(d, tS), T: tS}
 		}
 	case "S?":
 		switch g.draw(3, "os-form") {
@@ -371,7 +389,11 @@ func (g *orderGen) expr(t *Type, d int) Expr {
 		if g.noStr == 0 {
 			ts = append(ts, String)
 		}
-		return Cast{Op: "as", X: g.expr(ts[g.draw(len(ts), "any-of")], d), T: Any}
+		at := ts[g.draw(len(ts), "any-of")]
+		if h := g.anyHint; h != nil && g.draw(4, "any-hit") != 0 {
+			at = h
+		}
+		return Cast{Op: "as", X: exact(g.expr(at, d), at), T: Any}
 	}
 	// references: conditional or leaf
 	if g.draw(3, "ref-cond") == 0 {
@@ -379,6 +401,41 @@ func (g *orderGen) expr(t *Type, d int) Expr {
 		return Cond{C: g.expr(Bool, d), A: g.expr(t, d), B: g.expr(t, d)}
 	}
 	return g.leaf(t)
+}
+
+// index builds an index expression. The checker types an arithmetic expression
+// in index position with the expected type `Integer` taken from the array, which
+// makes e.g. `a[(c ? x : y) % z]` ill-typed (`Integer % Int`); a static cast
+// keeps such operands at type Int. (Checker quirk, not part of C52.)
+func (g *orderGen) index(d int) Expr {
+	if g.draw(10, "index-simple") < 6 {
+		// a leaf with a small index that is mostly in range
+		g.nextK++
+		g.info.Leaves++
+		g.leafHelper(Int)
+		return Call{Fn: "t_Int", Args: []Arg{{E: I(g.nextK)}, {E: I(int64(g.draw(3, "small-index") % 2))}}}
+	}
+	return exact(g.expr(Int, d), Int)
+}
+
+// exact pins the static type of an operator expression that is placed where the
+// expected type is a proper supertype (Integer for indices, AnyStruct for
+// elements of the result array).
+func exact(e Expr, t *Type) Expr {
+	switch e.(type) {
+	case Binary, Unary, Cond:
+		return Cast{Op: "as", X: e, T: t}
+	}
+	return e
+}
+
+// anyExpr builds an AnyStruct expression whose dynamic type is mostly want.
+func (g *orderGen) anyExpr(d int, want *Type) Expr {
+	old := g.anyHint
+	g.anyHint = want
+	e := g.expr(Any, d)
+	g.anyHint = old
+	return e
 }
 
 func (g *orderGen) addVar(t *Type, name string) {
@@ -400,17 +457,17 @@ func (g *orderGen) intTarget(d int) Expr {
 	case 1, 2:
 		g.feat("target-index")
 		names := g.vars[tAInt.String()]
-		return Index{X: V(names[g.draw(len(names), "arr")]), I: g.expr(Int, d)}
+		return Index{X: V(names[g.draw(len(names), "arr")]), I: g.index(d)}
 	case 3:
 		g.feat("target-index-index")
-		return Index{X: Index{X: V("aa0"), I: g.expr(Int, d)}, I: g.expr(Int, d)}
+		return Index{X: Index{X: V("aa0"), I: g.index(d)}, I: g.index(d)}
 	case 4:
 		g.feat("target-index-member")
-		return Member{X: Index{X: V("ss0"), I: g.expr(Int, d)}, Name: "f"}
+		return Member{X: Index{X: V("ss0"), I: g.index(d)}, Name: "f"}
 	case 5:
 		g.feat("target-member-index")
 		base := []Expr{V("s0"), Self{}}[g.draw(2, "self")]
-		return Index{X: Member{X: base, Name: "arr"}, I: g.expr(Int, d)}
+		return Index{X: Member{X: base, Name: "arr"}, I: g.index(d)}
 	default:
 		g.feat("target-member")
 		base := []Expr{V("s0"), Self{}}[g.draw(2, "self")]
@@ -440,7 +497,7 @@ func (g *orderGen) stmt(d int, nest int) []Stmt {
 		return []Stmt{Assign{Target: g.intTarget(d - 1), Value: g.expr(Int, d-1)}}
 	case 3:
 		g.feat("assign-dict")
-		return []Stmt{Assign{Target: Index{X: V("d0"), I: g.expr(Int, d-1)}, Value: g.expr(tOInt, d-1)}}
+		return []Stmt{Assign{Target: Index{X: V("d0"), I: g.index(d - 1)}, Value: g.expr(tOInt, d-1)}}
 	case 4:
 		g.feat("swap")
 		return []Stmt{Swap{L: g.intTarget(d - 1), R: g.intTarget(d - 1)}}
@@ -466,7 +523,7 @@ func (g *orderGen) stmt(d int, nest int) []Stmt {
 		return []Stmt{Let{Name: c, IsVar: true, Init: I(0)}, While{Cond: cond, Body: body}}
 	default:
 		g.feat("early-return")
-		return []Stmt{If{Cond: g.expr(Bool, d-1), Then: []Stmt{Return{E: ArrLit{T: Arr(Any), Elems: []Expr{g.expr(Int, d-1)}}}}}}
+		return []Stmt{If{Cond: g.expr(Bool, d-1), Then: []Stmt{Return{E: ArrLit{T: Arr(Any), Elems: []Expr{exact(g.expr(Int, d-1), Int)}}}}}}
 	}
 }
 
@@ -549,7 +606,7 @@ func GenOrder(t *rapid.T) (*Program, *OrderInfo) {
 	// final statement: return with a generated expression first, then the state
 	res := ArrLit{T: Arr(Any)}
 	g.feat("return")
-	res.Elems = append(res.Elems, g.expr(Int, g.maxDepth-1))
+	res.Elems = append(res.Elems, exact(g.expr(Int, g.maxDepth-1), Int))
 	for _, v := range resultVars {
 		res.Elems = append(res.Elems, V(v))
 	}
